@@ -15,9 +15,15 @@ Model: Repr/Model.lean — `pp classes q` is `.param.pprint()` (`q = false`) and
 Python's reading of such trees, `construct` what the constructor call does.
 `ev` is the opaque atom reader with the explicit hypothesis
 `∀ atom a of the object, ev (repr tokens of a) = some a`.
-`sEqv classes r o`: same class, the name up to auto-generation, every other
+`sEqv classes r o`: same class, the name equal unless the original is of the generated form
+(class name + at least five digits), every other
 parameter value the same literal / Python-equal / `Comparator.is_equal`
 (nested objects recursively).  `WF`: Repr/Spec.lean.
+What the atom hypothesis carries: "strings needing escapes, negative numbers, inf" are atoms, so
+that Python reads `repr(atom)` back as the atom is *assumed* here, and it is false of plain Python
+for `inf`/`nan` (`repr(float('inf')) == 'inf'` is a NameError unless the names are bound); the
+harness binds `inf`/`nan` in the evaluation namespace and checks the real `eval` on every case.
+The reader accepts a class under its bare name and under its module-qualified name.
 Only property theorems and non-vacuity examples live here.
 -/
 import ParamVerif.Repr.Lemmas
@@ -132,7 +138,7 @@ def koEv (toks : List String) : Option Atom :=
 /-- **The full statement is false of the code**: keyword-only constructor arguments are invisible
 to `_pprint` (it reads `spec.args`/`spec.defaults` only).  `KO(s='x')` prints as `KO()`, which
 evaluates to `s='zz'`. -/
-theorem C20_full_refuted : ¬ C20_full := by
+theorem C20_full_refuted : ¬ C20_full := by  -- keyword-only argument
   intro h
   obtain ⟨tt, r, h1, h2, h3⟩ := h [koCls] koEv 0 koCls koVals false rfl rfl rfl (by decide) (by decide) rfl rfl
     (by simp [koVals, WFL, WF, aStr]) (by decide)
@@ -144,6 +150,71 @@ theorem C20_full_refuted : ¬ C20_full := by
       | .error _ => false) = true := by
     rw [h1]; simp only [h2, h3]
   revert hcheck
+  decide +kernel
+
+/-- the refutation scheme: the whole round trip of one witness evaluated by the kernel as a Boolean -/
+def roundtripB (classes : Classes) (ev : List String → Option Atom) (q : Bool) (o : Lit) : Bool :=
+  match pp classes q o with
+  | .ok tt => (match evalTT classes ev tt with
+    | some r => sEqv classes r o
+    | none => false)
+  | .error _ => false
+
+theorem roundtripB_of_exists (classes : Classes) (ev : List String → Option Atom) (q : Bool) (o : Lit)
+    (h : ∃ tt r, pp classes q o = .ok tt ∧ evalTT classes ev tt = some r ∧ sEqv classes r o = true) :
+    roundtripB classes ev q o = true := by
+  obtain ⟨tt, r, h1, h2, h3⟩ := h
+  simp only [roundtripB, h1, h2, h3]
+
+def mkCls (name : String) (sdefault : String) (sig : Sig) : Cls :=
+  { name := name, qual := ["m", "."],
+    params := [{ name := "name", default := .atom (aStr name), precedence := none },
+               { name := "s", default := .atom (aStr sdefault), precedence := none }],
+    sig := sig }
+def tableEv (l : List Atom) (toks : List String) : Option Atom := l.find? (fun a => a.toks == toks)
+
+/-- **second witness**: `def __init__(self, *args, **params)`; `VA(s='q')` prints as
+`VA(s='q', **args)`: the name `args` is not bound (`_pprint` appends `'**%s' % spec.varargs`) -/
+theorem C20_full_refuted_varargs : ¬ C20_full := by
+  intro h
+  have := roundtripB_of_exists _ _ _ _ (h
+    [mkCls "VA" "x" { args := [], defaults := [], kwonly := [], varargs := some "args", varkw := true }]
+    (tableEv [aStr "VA00012", aStr "q"]) 0 _ [.atom (aStr "VA00012"), .atom (aStr "q")] false rfl rfl rfl
+    (by decide) (by decide) rfl rfl (by simp [WFL, WF, aStr]) (by decide))
+  revert this
+  decide +kernel
+
+/-- **third witness**: an explicit name equal to the class name (`In(name='In')` prints as `In()`:
+the class-level default of `name` is the class name, so the name counts as unchanged) -/
+theorem C20_full_refuted_class_name : ¬ C20_full := by
+  intro h
+  have := roundtripB_of_exists _ _ _ _ (h
+    [mkCls "In" "x" { args := [], defaults := [], kwonly := [], varargs := none, varkw := true }]
+    (tableEv [aStr "In", aStr "q"]) 0 _ [.atom (aStr "In"), .atom (aStr "q")] false rfl rfl rfl
+    (by decide) (by decide) rfl rfl (by simp [WFL, WF, aStr]) (by decide))
+  revert this
+  decide +kernel
+
+/-- **fourth witness**: an explicit name made of the class name and a few digits (`In(name='In7')`
+prints as `In()`: `_pprint` drops every name matching `<Class>[0-9]+`, not only generated ones) -/
+theorem C20_full_refuted_short_digit_name : ¬ C20_full := by
+  intro h
+  have := roundtripB_of_exists _ _ _ _ (h
+    [mkCls "In" "x" { args := [], defaults := [], kwonly := [], varargs := none, varkw := true }]
+    (tableEv [aStr "In7", aStr "q"]) 0 _ [.atom (aStr "In7"), .atom (aStr "q")] false rfl rfl rfl
+    (by decide) (by decide) rfl rfl (by simp [WFL, WF, aStr]) (by decide))
+  revert this
+  decide +kernel
+
+/-- **fifth witness**: `name` as a required positional argument holding a name of the generated
+form (`def __init__(self, name, s, **params)`; `PN('PN00012', 'q')` prints as `PN('q')`) -/
+theorem C20_full_refuted_positional_name : ¬ C20_full := by
+  intro h
+  have := roundtripB_of_exists _ _ _ _ (h
+    [mkCls "PN" "x" { args := ["name", "s"], defaults := [], kwonly := [], varargs := none, varkw := true }]
+    (tableEv [aStr "PN00012", aStr "q"]) 0 _ [.atom (aStr "PN00012"), .atom (aStr "q")] false rfl rfl rfl
+    (by decide) (by decide) rfl rfl (by simp [WFL, WF, aStr]) (by decide))
+  revert this
   decide +kernel
 
 /-! ## Non-vacuity -/
@@ -175,7 +246,7 @@ example : WF exClasses exObj ∧ (∀ a ∈ atomsOf exObj, exEv a.toks = some a)
   refine ⟨by decide, ?_, by decide, ?_⟩
   · intro p v h hn
     rcases h with ⟨rfl, rfl⟩ | ⟨rfl, rfl⟩ | ⟨rfl, rfl⟩ | ⟨rfl, rfl⟩ <;> simp at hn
-    exact ⟨_, rfl, rfl, Or.inr (by decide +kernel)⟩
+    exact ⟨_, rfl, rfl, Or.inr ⟨by decide +kernel, by decide +kernel⟩⟩
   · intro p v h hn
     rcases h with ⟨rfl, rfl⟩ | ⟨rfl, rfl⟩ <;> simp at hn
     exact ⟨_, rfl, rfl, Or.inl (by decide +kernel)⟩
